@@ -152,6 +152,9 @@ def _all_positions_distinct(positions):
 
 def get_closest_channels(channel_positions, channel_index, n=None):
     """Get the channels closest to a given channel on the probe."""
+    # NOTE: distances are computed on floating point positions (channel_positions.npy may hold
+    # small integers, whose differences and squares wrap around).
+    channel_positions = np.asarray(channel_positions, dtype=np.float64)
     x = channel_positions[:, 0]
     y = channel_positions[:, 1]
     x0, y0 = channel_positions[channel_index]
